@@ -138,9 +138,10 @@ pub fn gen_plan(seed: u64, run: u64, tier: &str) -> Plan {
             Step::Crash { back: if rng.chance(1, 5) { 0 } else { rng.range(1, 24) as u32 }, torn: if rng.chance(1, 4) { rng.range(1, 40) as u32 } else { 0 }, cold_backup: rng.chance(1, 2) }
         } else if r < 74 {
             w += 1;
-            let op = match rng.below(5) {
+            let op = match rng.below(6) {
                 0 => OpK::Snapshot,
                 1 => OpK::Delete { id },
+                5 => OpK::Restart,
                 _ => OpK::Insert { id, vec: bits(&gen_vector(&mut rng, cfg.dim, w)), meta: gen_meta(&mut rng, w) },
             };
             Step::FaultyOp(op, crate::c03::gen_faults(&mut rng))
@@ -365,6 +366,34 @@ pub fn execute(plan: &Plan) -> Exec {
                         _ => {
                             pr(&mut ex, "history_abandoned_restart_failed");
                             break;
+                        }
+                    }
+                    restart_since = true;
+                    for a in activity.values_mut() {
+                        a.1 = true;
+                    }
+                }
+                Step::FaultyOp(OpK::Restart, faults) => {
+                    // a start during which storage calls fail; when it fails, the next start runs without faults
+                    drop(eng.take());
+                    simlibc::arm_faults(faults.iter().map(crate::c03::to_rule).collect());
+                    let first = catch_unwind(AssertUnwindSafe(|| Eng::recover(&p.cfg, &data)));
+                    let fired = simlibc::disarm_faults().iter().filter(|f| f.fired).count();
+                    if fired > 0 {
+                        faulted = true;
+                        *ex.faults.entry("storage_fault_during_restart".to_string()).or_insert(0) += 1;
+                    }
+                    match first {
+                        Ok(Ok(e2)) => eng = Some(e2),
+                        _ => {
+                            pr(&mut ex, "start_failed_under_storage_fault");
+                            match catch_unwind(AssertUnwindSafe(|| Eng::recover(&p.cfg, &data))) {
+                                Ok(Ok(e2)) => eng = Some(e2),
+                                _ => {
+                                    pr(&mut ex, "history_abandoned_start_after_failed_start_failed");
+                                    break;
+                                }
+                            }
                         }
                     }
                     restart_since = true;
